@@ -363,4 +363,251 @@ theorem ObjOkF_setNameKVs {P : String → Prop} {c : String} (hcn : c ≠ "name"
     · exact hgen
   · exact h
 
+/-! ### the raw object after `processExtensions`, after the hook; the struct decode -/
+
+theorem ExtOk_of_AllStr {P : String → Prop} {v : Val} (h : AllStr P v) : ExtOk P v := by
+  cases v with
+  | map ex => simp only [AllStr] at h; exact ObjOkF_of_AllStrKV h
+  | _ => simpa [ExtOk] using h
+
+theorem lookup_withExtras_ne {k : String} (h : k ≠ extKey) (ex keep : KVs) :
+    Val.lookup k (withExtras ex keep) = Val.lookup k keep := by
+  unfold withExtras
+  split
+  · rfl
+  · exact lookup_insert_ne h _ _
+
+/-- the object of a resource after `processExtensions` (any path, skipped or not) -/
+theorem RawOk_pxObj {P : String → Prop} {c : String} (hx : P extKey) (hce : c ≠ extKey) (p : TPath) (skip : Bool) {kvs : KVs}
+    (h : ObjOkF P c kvs) (hex : ObjOkF P xValue (extrasOf skip kvs)) :
+    RawOk P c (withExtras (extrasOf skip kvs) (pxKVs p skip kvs)) := by
+  have hkeep := ObjOkF_pxKVs (c := c) hx p skip h
+  constructor
+  · intro k v hl _ _ hkc hke
+    rw [lookup_withExtras_ne hke] at hl
+    exact ObjOkF_lookup_ne hkeep hl hkc
+  · intro v hl
+    unfold withExtras at hl
+    split at hl
+    · exact ExtOk_of_AllStr (ObjOkF_lookup_ne hkeep hl (fun h => hce h.symm))
+    · rw [lookup_insert_self] at hl
+      cases hl
+      exact hex
+
+/-- after the hook the `#extensions` mapping is clean -/
+def ExtClean (P : String → Prop) (kvs : KVs) : Prop := ∀ m, Val.lookup extKey kvs = some (.map m) → AllStrKV P m
+
+theorem xValue_ne_extKey : xValue ≠ extKey := by decide
+theorem Content_ne_extKey : "Content" ≠ extKey := by decide
+
+theorem RawOk_hook {P : String → Prop} {c : String} {kvs : KVs} (h : RawOk P c kvs) :
+    RawOk P c (hook kvs) ∧ ExtClean P (hook kvs) := by
+  unfold hook
+  split
+  · rename_i ext hext
+    have hExt : ObjOkF P xValue ext := h.2 _ hext
+    split
+    · rename_i val hval
+      have hclean : AllStrKV P (Val.erase xValue ext) := ObjOkF_erase_carrier hExt
+      simp only
+      split
+      · constructor
+        · constructor
+          · intro k v hl h1 h2 h3 h4
+            rw [lookup_erase_ne h4, lookup_insert_ne h2] at hl
+            exact h.1 k v hl h1 h2 h3 h4
+          · intro v hl
+            rw [lookup_erase_self] at hl
+            cases hl
+        · intro m hl
+          rw [lookup_erase_self] at hl
+          cases hl
+      · constructor
+        · constructor
+          · intro k v hl h1 h2 h3 h4
+            rw [lookup_insert_ne h4, lookup_insert_ne h2] at hl
+            exact h.1 k v hl h1 h2 h3 h4
+          · intro v hl
+            rw [lookup_insert_self] at hl
+            cases hl
+            exact ObjOkF_of_AllStrKV hclean
+        · intro m hl
+          rw [lookup_insert_self] at hl
+          cases hl
+          exact hclean
+    · rename_i hno
+      refine ⟨h, ?_⟩
+      intro m hl
+      rw [hext] at hl
+      cases hl
+      exact AllStrKV_of_ObjOkF_lookup hExt (fun s hs => hno s hs)
+  · rename_i hno
+    refine ⟨h, ?_⟩
+    intro m hl
+    exact absurd hl (hno m)
+
+/-- for configs the hook does not run: the extras never held the carrier, so `#extensions` is clean as it is -/
+theorem ExtClean_of_RawOk_config {P : String → Prop} {kvs : KVs} (h : RawOk P "content" kvs)
+    (hex : ∀ m, Val.lookup extKey kvs = some (.map m) → AllStrKV P m) : ExtClean P kvs := hex
+
+theorem OptP_strField {P : String → Prop} {c : String} {kvs : KVs} (h : RawOk P c kvs) {k s : String}
+    (hs : strField k kvs = some s) (h1 : k ≠ xValue) (h2 : k ≠ "Content") (h3 : k ≠ c) (h4 : k ≠ extKey) : OptP P s := by
+  unfold strField at hs
+  split at hs
+  · cases hs; exact .inl rfl
+  · cases hs; exact .inl rfl
+  · rename_i s' hl
+    cases hs
+    exact .inr (by simpa [AllStr] using h.1 k _ hl h1 h2 h3 h4)
+  · cases hs
+
+theorem StrMapOk_strMapEntries {P : String → Prop} : ∀ {m : KVs} {l : List (String × String)},
+    AllStrKV P m → strMapEntries m = some l → StrMapOk P l
+  | [], l, _, h => by simp [strMapEntries] at h; subst h; simp [StrMapOk]
+  | (k, .str s) :: r, l, hm, h => by
+    simp only [AllStrKV, AllStr] at hm
+    simp only [strMapEntries, Option.map_eq_some_iff] at h
+    obtain ⟨l', hl', rfl⟩ := h
+    simp only [StrMapOk]
+    exact ⟨hm.1, hm.2.1, StrMapOk_strMapEntries hm.2.2 hl'⟩
+  | (_, .null) :: _, _, _, h => by simp [strMapEntries] at h
+  | (_, .bool _) :: _, _, _, h => by simp [strMapEntries] at h
+  | (_, .int _) :: _, _, _, h => by simp [strMapEntries] at h
+  | (_, .float _) :: _, _, _, h => by simp [strMapEntries] at h
+  | (_, .seq _) :: _, _, _, h => by simp [strMapEntries] at h
+  | (_, .map _) :: _, _, _, h => by simp [strMapEntries] at h
+
+theorem StrMapOk_strMapField {P : String → Prop} {c : String} {kvs : KVs} (h : RawOk P c kvs) {k : String} {l : List (String × String)}
+    (hs : strMapField k kvs = some l) (h1 : k ≠ xValue) (h2 : k ≠ "Content") (h3 : k ≠ c) (h4 : k ≠ extKey) : StrMapOk P l := by
+  unfold strMapField at hs
+  split at hs
+  · cases hs; simp [StrMapOk]
+  · cases hs; simp [StrMapOk]
+  · rename_i m hl
+    have := h.1 k _ hl h1 h2 h3 h4
+    simp only [AllStr] at this
+    exact StrMapOk_strMapEntries this hs
+  · cases hs
+
+theorem AllStrKV_extField {P : String → Prop} {kvs : KVs} (h : ExtClean P kvs) {m : KVs} (hs : extField kvs = some m) : AllStrKV P m := by
+  unfold extField at hs
+  split at hs
+  · cases hs; simp [AllStrKV]
+  · cases hs; simp [AllStrKV]
+  · rename_i m' hl
+    cases hs
+    exact h _ hl
+  · cases hs
+
+/-- what the struct decode reads satisfies `P`, except possibly the content -/
+theorem CleanBut_decodeFields {P : String → Prop} {c : String} (hc : c = xValue ∨ c = "content") {kvs : KVs}
+    (h : RawOk P c kvs) (he : ExtClean P kvs) {o : FileObj} (hd : decodeFields kvs = .ok o) : o.CleanBut P := by
+  unfold decodeFields at hd
+  split at hd
+  · rename_i name file environment content external labels driver driverOpts templateDriver extensions h1 h2 h3 _ _ h6 h7 h8 h9 h10
+    split at hd
+    · cases hd
+      rcases hc with rfl | rfl
+      · exact ⟨OptP_strField h h1 (by decide) (by decide) (by decide) (by decide),
+          OptP_strField h h2 (by decide) (by decide) (by decide) (by decide),
+          OptP_strField h h3 (by decide) (by decide) (by decide) (by decide),
+          StrMapOk_strMapField h h6 (by decide) (by decide) (by decide) (by decide),
+          OptP_strField h h7 (by decide) (by decide) (by decide) (by decide),
+          StrMapOk_strMapField h h8 (by decide) (by decide) (by decide) (by decide),
+          OptP_strField h h9 (by decide) (by decide) (by decide) (by decide),
+          AllStrKV_extField he h10⟩
+      · exact ⟨OptP_strField h h1 (by decide) (by decide) (by decide) (by decide),
+          OptP_strField h h2 (by decide) (by decide) (by decide) (by decide),
+          OptP_strField h h3 (by decide) (by decide) (by decide) (by decide),
+          StrMapOk_strMapField h h6 (by decide) (by decide) (by decide) (by decide),
+          OptP_strField h h7 (by decide) (by decide) (by decide) (by decide),
+          StrMapOk_strMapField h h8 (by decide) (by decide) (by decide) (by decide),
+          OptP_strField h h9 (by decide) (by decide) (by decide) (by decide),
+          AllStrKV_extField he h10⟩
+    · cases hd
+  · cases hd
+
+/-! ### rendering -/
+
+theorem AllStrKV_optStr {P : String → Prop} {k s : String} (hk : P k) (hs : OptP P s) : AllStrKV P (optStr k s) := by
+  unfold optStr
+  split
+  · simp [AllStrKV]
+  · rename_i hne
+    rcases hs with h | h
+    · exact absurd h hne
+    · simp [AllStrKV, AllStr, hk, h]
+
+theorem AllStrKV_optBool {P : String → Prop} {k : String} (hk : P k) (b : Bool) : AllStrKV P (optBool k b) := by
+  unfold optBool
+  split <;> simp [AllStrKV, AllStr, hk]
+
+theorem AllStrKV_strMap {P : String → Prop} : ∀ {m : List (String × String)}, StrMapOk P m →
+    AllStrKV P (m.map fun kv => (kv.1, Val.str kv.2))
+  | [], _ => by simp [AllStrKV]
+  | (k, v) :: r, h => by
+    simp only [StrMapOk] at h
+    simp only [List.map, AllStrKV, AllStr]
+    exact ⟨h.1, h.2.1, AllStrKV_strMap h.2.2⟩
+
+theorem AllStrKV_optStrMap {P : String → Prop} {k : String} {m : List (String × String)} (hk : P k) (hm : StrMapOk P m) :
+    AllStrKV P (optStrMap k m) := by
+  unfold optStrMap
+  split
+  · simp [AllStrKV]
+  · simp only [AllStrKV, AllStr]
+    exact ⟨hk, AllStrKV_strMap hm, trivial⟩
+
+theorem AllStrKV_fields {P : String → Prop} (hv : ∀ k ∈ vocabulary, P k) {o : FileObj} (h : o.CleanBut P) (hc : OptP P o.content) :
+    AllStrKV P o.fields := by
+  unfold FileObj.fields
+  have v := fun k (hk : k ∈ vocabulary) => hv k hk
+  refine AllStrKV_append (AllStrKV_append (AllStrKV_append (AllStrKV_append (AllStrKV_append (AllStrKV_append
+    (AllStrKV_append (AllStrKV_append ?_ ?_) ?_) ?_) ?_) ?_) ?_) ?_) ?_
+  · exact AllStrKV_optStr (v _ (by decide)) h.name
+  · exact AllStrKV_optStr (v _ (by decide)) h.file
+  · exact AllStrKV_optStr (v _ (by decide)) h.environment
+  · exact AllStrKV_optStr (v _ (by decide)) hc
+  · exact AllStrKV_optBool (v _ (by decide)) _
+  · exact AllStrKV_optStrMap (v _ (by decide)) h.labels
+  · exact AllStrKV_optStr (v _ (by decide)) h.driver
+  · exact AllStrKV_optStrMap (v _ (by decide)) h.driverOpts
+  · exact AllStrKV_optStr (v _ (by decide)) h.templateDriver
+
+theorem CleanBut_setContent {P : String → Prop} {o : FileObj} (h : o.CleanBut P) (s : String) : FileObj.CleanBut P { o with content := s } :=
+  ⟨h.name, h.file, h.environment, h.labels, h.driver, h.driverOpts, h.templateDriver, h.extensions⟩
+
+theorem CleanBut_setFlag {P : String → Prop} {o : FileObj} (h : o.CleanBut P) (b : Bool) : FileObj.CleanBut P { o with marshallContent := b } :=
+  ⟨h.name, h.file, h.environment, h.labels, h.driver, h.driverOpts, h.templateDriver, h.extensions⟩
+
+theorem AllStr_render_obj {P : String → Prop} (hv : ∀ k ∈ vocabulary, P k) {o : FileObj} (h : o.CleanBut P) (hc : OptP P o.content) :
+    AllStr P o.toYaml ∧ AllStr P o.toJson := by
+  simp only [FileObj.toYaml, FileObj.toJson, AllStr]
+  exact ⟨AllStrKV_append (AllStrKV_fields hv h hc) h.extensions, AllStrKV_fields hv h hc⟩
+
+/-- a secret whose flag is off renders without any trace of its content -/
+theorem AllStr_renderSecret {P : String → Prop} (hv : ∀ k ∈ vocabulary, P k) {o : FileObj} (h : o.CleanBut P)
+    (hf : o.marshallContent = false) (r : Renderer) : AllStr P (renderSecret r o) := by
+  have hb : secretBlank o = { o with content := "" } := by simp [secretBlank, hf]
+  have := AllStr_render_obj hv (CleanBut_setContent h "") (.inl rfl)
+  cases r
+  · simp only [renderSecret, secretYaml, hb]; exact this.1
+  · simp only [renderSecret, secretJson, hb]; exact this.2
+
+/-- a config renders cleanly when its content is clean or its source variable is named -/
+theorem AllStr_renderConfig {P : String → Prop} (hv : ∀ k ∈ vocabulary, P k) {o : FileObj} (h : o.CleanBut P)
+    (hl : o.environment ≠ "" ∨ OptP P o.content) (r : Renderer) : AllStr P (renderConfig r o) := by
+  by_cases he : o.environment = ""
+  · have hb : configBlank o = o := by simp [configBlank, he]
+    have hc : OptP P o.content := hl.resolve_left (fun h => h he)
+    have := AllStr_render_obj hv h hc
+    cases r
+    · simp only [renderConfig, configYaml, hb]; exact this.1
+    · simp only [renderConfig, configJson, hb]; exact this.2
+  · have hb : configBlank o = { o with content := "" } := by simp [configBlank, he]
+    have := AllStr_render_obj hv (CleanBut_setContent h "") (.inl rfl)
+    cases r
+    · simp only [renderConfig, configYaml, hb]; exact this.1
+    · simp only [renderConfig, configJson, hb]; exact this.2
+
 end CV.Secrets
